@@ -123,6 +123,7 @@ var (
 	// link: click events normally bubble up to link ancestors
 	// See http://lists.w3.org/Archives/Public/www-style/2012Jun/0315.html
 	Inherited = NewSetK(
+		PBlockEllipsis,
 		PBorderCollapse,
 		PBorderSpacing,
 		PCaptionSide,
@@ -149,6 +150,7 @@ var (
 		PHyphenateCharacter,
 		PHyphenateLimitChars,
 		PHyphenateLimitZone,
+		PImageOrientation,
 		PImageRendering,
 		PImageResolution,
 		PLang,
